@@ -341,8 +341,8 @@ func (r *Run) Finish() int {
 		verdict, code = "VIOLATED", 1
 	} else if len(r.broken) > 0 {
 		verdict, code = "BROKEN CHECK: "+strings.Join(r.broken, "; "), 2
-	} else if r.Evaluations == 0 || len(r.Distinct) < 2 {
-		verdict, code = "BROKEN CHECK: observed nothing", 2
+	} else if r.Evaluations == 0 || len(r.Distinct) < 2 || len(r.Samples) == 0 {
+		verdict, code = "BROKEN CHECK: observed nothing (or recorded no sample case)", 2
 	}
 	fmt.Fprintf(Out, "%s %s seed=%d: %s; evaluations=%d distinct_nontrivial=%d inconclusive=%d wall=%.1fs\n",
 		r.Prop, r.Tier, r.Seed, verdict, r.Evaluations, len(r.Distinct), r.Counters["inconclusive"], wall)
